@@ -19,7 +19,9 @@ RULE = ("model vs implementation on (a) construct_exon_profile / construct_intro
         "(b) GeneInfo.set_feature_properties on generated isoform sets; (c) ProfileFeatureCounter histories (real "
         "ExonCounter/IntronCounter fed with fake assignments, dumped file parsed back, exact row text) incl. a malformed "
         "stream (profile longer than the property map); (d) whole in-process 'chromosomes': GeneInfo.from_models loaded "
-        "several times, real profiles, the four real counters, dumped tables parsed back.  A case is non-trivial when the "
+        "several times (also through split sub-regions: gene infos built from different gene subsets), real profiles, the four "
+        "real counters, dumped tables parsed back; (e) FeatureInfo.merge on generated description pairs (well-formed + malformed) and "
+        "on descriptions the real set_feature_properties derives from gene subsets.  A case is non-trivial when the "
         "model returns a non-error value with at least one counted feature / non-zero profile entry and model == "
         "implementation; distinct by (op, input)")
 TRUSTED = ["Model/Profiles.lean constructors are corresponded under C19 as well as here through the wrappers",
@@ -36,7 +38,7 @@ ASSUMPTIONS = ["CPython int semantics = Lean Int; Python str order on ASCII grou
                "(DESIGN.md §6)"]
 
 DEFAULT_GROUP = "NA"
-STATS = {"pairs_exact": 0, "pairs_bounds_only": 0, "present": 0, "absent": 0, "tie_loser": 0}
+STATS = {"pairs_exact": 0, "pairs_micro_class": 0, "present": 0, "absent": 0, "tie_loser": 0}
 
 
 def _impl():
@@ -98,6 +100,19 @@ def impl_feature_properties(kw):
     props = gi.set_feature_properties({t["tid"]: tl(t["feats"]) for t in kw["isoforms"]}, fp)
     return {"props": [fi_dict(p) for p in props],
             "strs": [p.to_str() for p in props]}
+
+
+def _mk_fi(f):
+    C, GI, LP, LC, IA = _impl()
+    o = GI.FeatureInfo(f["chr"], f["start"], f["end"], f["strand"], f["type"], list(f["genes"]))
+    o.id = f.get("id", o.id)
+    return o
+
+
+def impl_merge_info(kw):
+    m = _mk_fi(kw["a"]).merge(_mk_fi(kw["b"]))
+    return {"chr": m.chr_id, "start": m.start, "end": m.end, "strand": m.strand, "type": m.type, "genes": list(m.gene_ids),
+            "str": m.to_str()}
 
 
 def fi_dict(p):
@@ -278,7 +293,7 @@ def correspondence(ctx):
 
     # (d) in-process chromosomes
     for i in range(150 if quick else 1500):
-        case = F.pipeline_case(rng, quick, micro=(i % 5 == 0))
+        case = F.pipeline_case(rng, quick, micro=(i % 5 == 0), split=(i % 3 == 1))
         try:
             gis, next_id = build_loads(case)
         except Exception as ex:   # annotation the real GeneInfo rejects: not in the domain
@@ -288,6 +303,16 @@ def correspondence(ctx):
         io = guarded(impl_pipeline_counts, case, gis)
         lines.append(vlib.req("C13.pipeline_counts", **kw))
         post.append(("pipeline_counts", {"case": case}, io, lambda mo: len(mo["exon"]) + len(mo["intron"]) > 0, _cmp_pipeline))
+
+    # (f) FeatureInfo.merge: generated description pairs + descriptions the real code derives from gene subsets
+    pairs = list(F.label_pairs(rng, quick))
+    for _ in range(40 if quick else 400):
+        pairs += subset_label_pairs(rng, F.genome_annotation(rng, micro=rng.random() < 0.2), rng.choice([0, 2, 6]))[:12]
+    for a, b in pairs:
+        kw = {"a": a, "b": b}
+        lines.append(vlib.req("C13.merge_info", **kw))
+        post.append(("merge_info", kw, guarded(impl_merge_info, kw),
+                     lambda mo: True, None))
 
     # (e) the delta a run uses: real set_matching_options vs the model over the regenerated preset table
     for strategy in ("exact", "precise", "default", "loose", "no_such_strategy"):
@@ -320,6 +345,57 @@ def correspondence(ctx):
     ctx.extra["universe"] = {"profile_wrappers": "known sets of <=2 intervals over 1..8 (sampled), gapped block lists of <=3 blocks, "
                                                  "delta 0..2; genome-scale annotations (<=3 genes, <=4 isoforms each, micro-exon variant)",
                              "histories": "<=4 property maps sharing coordinates under different running ids, <=12 events, 5 groups"}
+
+
+def subset_labels(isos, d, genes, kind):
+    """the real set_feature_properties on the isoforms of the genes in `genes`: feature -> FeatureInfo dict"""
+    sub = [t for t in isos if t["gene"] in genes]
+    if kind == "intron":
+        sub = [dict(t, feats=F.junctions(t["feats"])) for t in sub]
+    feats = sorted({tuple(e) for t in sub for e in t["feats"]})
+    if not feats:
+        return {}
+    r = impl_feature_properties({"chr": "chr1", "d": d, "features": feats, "isoforms": sub, "next_id": 0})
+    return {(p["start"], p["end"]): p for p in r["props"]}
+
+
+def subset_label_pairs(rng, isos, d):
+    """pairs (description of f under gene subset A, under gene subset B) for features both subsets have"""
+    gids = sorted({t["gene"] for t in isos})
+    res = []
+    for kind in ("exon", "intron"):
+        A = [g for g in gids if rng.random() < 0.6] or gids[:1]
+        B = [g for g in gids if rng.random() < 0.6] or gids[-1:]
+        la, lb = subset_labels(isos, d, A, kind), subset_labels(isos, d, B, kind)
+        for f in sorted(set(la) & set(lb)):
+            res.append((la[f], lb[f]))
+    rng.shuffle(res)
+    return res
+
+
+def oracle_merge_union(rng, isos, d):
+    """FeatureInfo.merge against its meaning on the real code: merging the descriptions a feature gets under the gene
+    subsets A and B gives the description it gets when the genes of A and B are loaded together (strand string, flags,
+    gene list), in either order"""
+    C, GI, LP, LC, IA = _impl()
+    if not hasattr(GI.FeatureInfo, "merge"):
+        return []
+    fails = []
+    gids = sorted({t["gene"] for t in isos})
+    for kind in ("exon", "intron"):
+        A = [g for g in gids if rng.random() < 0.6] or gids[:1]
+        B = [g for g in gids if rng.random() < 0.6] or gids[-1:]
+        la, lb, lu = (subset_labels(isos, d, X, kind) for X in (A, B, sorted(set(A) | set(B))))
+        for f in sorted(set(la) & set(lb)):
+            for x, y in ((la[f], lb[f]), (lb[f], la[f])):
+                m = impl_merge_info({"a": x, "b": y})
+                STATS["merge_union_checked"] = STATS.get("merge_union_checked", 0) + 1
+                if (m["strand"], m["type"], m["genes"]) != (lu[f]["strand"], lu[f]["type"], lu[f]["genes"]):
+                    fails.append(("merge_not_union", {"level": "merge", "isos": isos, "d": d, "A": A, "B": B, "kind": kind, "f": list(f)},
+                                  "%s %s: merge of the descriptions under genes %s and %s gives %s/%s/%s, loading %s together gives %s/%s/%s"
+                                  % (kind, f, A, B, m["strand"], m["type"], m["genes"], sorted(set(A) | set(B)),
+                                     lu[f]["strand"], lu[f]["type"], lu[f]["genes"])))
+    return fails
 
 
 def _cmp_props(mo, io):
@@ -365,14 +441,33 @@ def span_overlap_test(span, k, min_ov):
 
 
 def hyp_ok(K, R, d):
-    """the decidable hypotheses under which the recount is exact (DESIGN §7 C19 read_profile_spec)"""
+    """the decidable hypotheses `Hyp δ K R` of the `…_partial` profile theorems (Props/C13Profiles.lean)"""
     return all(k[1] - k[0] >= d for k in K) and all(R[j + 1][0] - R[j][1] >= d + 1 for j in range(len(R) - 1)) \
         and all(r[0] <= r[1] for r in R)
 
 
+def micro_class(k, K, R, d):
+    """class predicate of the known finding `micro_feature_sweep_skip` for the known feature `k` of one read:
+    some read feature r equals a known feature k' within delta where k' is k itself or competes with k for r (r equals
+    k within delta too), and the pair (k', r) is one the sweep of construct_profile_for_features may never compare:
+    k' is shorter than delta + 1 (so r can equal it within delta without overlapping it), or r starts at most delta
+    after the end of the preceding read feature (so that one is compared with k' and the pointer moves on).
+    Exactly the inputs `Hyp` excludes (LongerThan / SepBy), localised to the feature; outside the class the statement
+    is checked exactly."""
+    for j, r in enumerate(R):
+        if not (matches(r, k, d)):
+            continue
+        close = j > 0 and r[0] - R[j - 1][1] <= d
+        for k2 in K:
+            if matches(r, k2, d) and (k2[1] - k2[0] < d or close):
+                return True
+    return False
+
+
 def expected_values(kind, K, blocks, d, abs_d, polya, polyt):
-    """per known feature: (strict, lenient) expected profile value in {1,-1,0} for one read, or None where only the
-    soundness bounds apply.  strict = the statement; lenient = statement + tie-loser exons outside the inner region"""
+    """per known feature: (strict, lenient, exact, candidates): the profile value in {1,-1,0} the STATEMENT gives for
+    one read (all inputs, also outside `Hyp`); strict = the statement; lenient = statement + tie-loser exons outside the
+    inner region; exact = the feature is outside the class `micro_feature_sweep_skip` for this read"""
     if kind == "exon":
         R = list(blocks)
         M = (blocks[0][1] + d, blocks[-1][0] - d)
@@ -381,10 +476,10 @@ def expected_values(kind, K, blocks, d, abs_d, polya, polyt):
         R = F.junctions(blocks)
         M = (blocks[0][0], blocks[-1][1])
         absent = lambda k: span_overlap_test(M, k, abs_d)
-    exact = hyp_ok(K, R, d)
-    STATS["pairs_exact" if exact else "pairs_bounds_only"] += len(K)
     res = []
     for k in K:
+        exact = not micro_class(k, K, R, d)
+        STATS["pairs_exact" if exact else "pairs_micro_class"] += 1
         masked = (polya != -1 and k[0] > polya + d) or (polyt != -1 and k[1] < polyt - d)
         cands = [r for r in R if matches(r, k, d)]
         best = any(dist(r, k) == min(dist(r, k2) for k2 in K if matches(r, k2, d)) for r in cands)
@@ -423,12 +518,13 @@ def annotation_rows(kind, isos, chrom):
 
 
 def oracle_tables(tables, reads, chrom, d, abs_d, default_group, annotation=None):
-    """reads: list of dict(blocks, polya, polyt, group, isos = the annotation visible to the read).
+    """reads: list of dict(blocks, polya, polyt, group, isos = the annotation visible to the read [, touched = the
+    (exon, intron) features at which the real profile of the read is +1 / -1]).
     tables: {'exon': rows, 'intron': rows, 'exon_grouped': rows, 'intron_grouped': rows} as parsed from the dumps.
     Returns list of (kind, detail)."""
     fails = []
     for kind in ("exon", "intron"):
-        strict, lenient, lo, hi = {}, {}, {}, {}
+        strict, lenient, lo, hi, micro = {}, {}, {}, {}, {}
         # what a row must say is what the ANNOTATION says about the feature (all genes of the chromosome), not what the
         # genes loaded for one read cluster happen to contain
         if annotation is None:
@@ -441,6 +537,7 @@ def oracle_tables(tables, reads, chrom, d, abs_d, default_group, annotation=None
         else:
             annotation_ = annotation
         ann = dict(annotation_rows(kind, annotation_, chrom))
+        seen_isos = {}          # feature -> isoforms of the gene infos through which a processed read touched it
         for r in reads:
             a = annotation_rows(kind, r["isos"], chrom)
             K = sorted(a)
@@ -449,7 +546,12 @@ def oracle_tables(tables, reads, chrom, d, abs_d, default_group, annotation=None
             if not K:
                 continue
             vals = expected_values(kind, K, tl(r["blocks"]), d, abs_d, r["polya"], r["polyt"])
+            touched = r.get("touched")
             for f, (vs, vl, exact, cands) in zip(K, vals):
+                if (f in touched[0 if kind == "exon" else 1]) if touched is not None else True:
+                    e = seen_isos.setdefault(f, {})
+                    for t in r["isos"]:
+                        e[t["tid"]] = t
                 for g in (None, r["group"]):
                     key = (f, g)
                     for tab, v in ((strict, vs), (lenient, vl)):
@@ -466,8 +568,9 @@ def oracle_tables(tables, reads, chrom, d, abs_d, default_group, annotation=None
                             if vl == x or vs == x:
                                 h_[i] += 1
                     else:
-                        # soundness bounds only: included needs a read feature matching within delta; excluded is
-                        # not constrained from below
+                        # class micro_feature_sweep_skip: soundness bounds only: included needs a read feature matching
+                        # within delta; excluded is not constrained from below
+                        micro[key] = micro.get(key, 0) + 1
                         if cands:
                             h_[0] += 1
                         h_[1] += 1
@@ -479,16 +582,23 @@ def oracle_tables(tables, reads, chrom, d, abs_d, default_group, annotation=None
             for row in rows:
                 f = (row["start"], row["end"])
                 g = row["group"]
-                k4 = (row["chr"], row["start"], row["end"], row["strand"], g)
-                if k4 in seen:
-                    fails.append(("feature_row_split", "%s: two rows for %s group %s" % (name, k4[:4], g)))
-                seen[k4] = row
+                k3 = (row["chr"], row["start"], row["end"], g)
+                if k3 in seen:
+                    fails.append(("feature_row_split", "%s: two rows for %s group %s (strand/genes %s/%s and %s/%s)"
+                                  % (name, k3[:3], g, seen[k3]["strand"], seen[k3]["genes"], row["strand"], row["genes"])))
+                seen[k3] = row
                 if row["chr"] != chrom or f not in ann:
-                    fails.append(("row_not_annotated", "%s: row %s is not an annotated %s" % (name, k4[:4], kind)))
+                    fails.append(("row_not_annotated", "%s: row %s is not an annotated %s" % (name, k3[:3], kind)))
                     continue
                 if row["strand"] != ann[f][0] or row["genes"] != ann[f][1]:
-                    fails.append(("row_identity", "%s: row %s strand/genes %s/%s, annotation %s/%s"
-                                  % (name, k4[:4], row["strand"], row["genes"], ann[f][0], ann[f][1])))
+                    part = annotation_rows(kind, list(seen_isos.get(f, {}).values()), chrom).get(f)
+                    if part is not None and (row["strand"], row["genes"]) == part and len(part[1]) < len(ann[f][1]):
+                        fails.append(("partial_load_label", "%s: row %s strand/genes %s/%s describes the feature with respect to the "
+                                      "genes loaded for the sub-regions in which it was counted; the annotation says %s/%s"
+                                      % (name, k3[:3], row["strand"], row["genes"], ann[f][0], ann[f][1])))
+                    else:
+                        fails.append(("row_identity", "%s: row %s strand/genes %s/%s, annotation %s/%s"
+                                      % (name, k3[:3], row["strand"], row["genes"], ann[f][0], ann[f][1])))
                 if not grouped and g != default_group:
                     fails.append(("row_group", "%s: ungrouped row with group %s" % (name, g)))
             got = {}
@@ -508,19 +618,25 @@ def oracle_tables(tables, reads, chrom, d, abs_d, default_group, annotation=None
                         fails.append(("tie_loser_exon", "%s: %s %s reported incl/excl %s, the statement gives %s (exon matched "
                                                          "within delta by a terminal read exon but a closer annotated variant exists)"
                                       % (name, kind, k, g_, s_)))
-                    continue
+                        continue
+                    if micro.get(k):
+                        fails.append(("micro_feature_sweep_skip", "%s: %s %s reported incl/excl %s, the statement gives %s; %d of the "
+                                      "reads have a read feature equal within delta=%d to a known feature shorter than delta+1 / starting "
+                                      "<= delta after the preceding read feature (pair never compared by the sweep)"
+                                      % (name, kind, k, g_, s_, micro[k], d)))
+                        continue
                 fails.append(("count_mismatch", "%s: %s %s reported incl/excl %s, recount %s (bounds %s..%s)"
                               % (name, kind, k, g_, s_, l_, h_)))
         # grouped variants partition the ungrouped counts
         if tables.get(kind) is not None and tables.get(kind + "_grouped") is not None:
             tot = {}
             for row in tables[kind + "_grouped"]:
-                e = tot.setdefault((row["chr"], row["start"], row["end"], row["strand"]), [0, 0])
+                e = tot.setdefault((row["chr"], row["start"], row["end"]), [0, 0])
                 e[0] += row["incl"]
                 e[1] += row["excl"]
             ung = {}
             for row in tables[kind]:
-                e = ung.setdefault((row["chr"], row["start"], row["end"], row["strand"]), [0, 0])
+                e = ung.setdefault((row["chr"], row["start"], row["end"]), [0, 0])
                 e[0] += row["incl"]
                 e[1] += row["excl"]
             if tot != ung:
@@ -531,10 +647,16 @@ def oracle_tables(tables, reads, chrom, d, abs_d, default_group, annotation=None
 
 def oracle_inprocess(case):
     """the property on one in-process chromosome (real GeneInfo, real constructors, real counters)"""
-    io = impl_pipeline_counts(case)
+    gis, _ = build_loads(case)
+    io = impl_pipeline_counts(case, gis, want_profiles=True)
     if "bad_header" in io:
         return [("header", str(io))]
-    reads = [dict(r, isos=case["loads"][r["gene"]]) for r in case["reads"]]
+    reads = []
+    for r, (ep, ip) in zip(case["reads"], io.pop("_profiles")):
+        gi = gis[r["gene"]]
+        touched = ({f for f, v in zip(gi.exon_profiles.features, ep) if v in (1, -1)},
+                   {f for f, v in zip(gi.intron_profiles.features, ip) if v in (1, -1)})
+        reads.append(dict(r, isos=case["loads"][r["gene"]], touched=touched))
     return oracle_tables(io, reads, case["chr"], case["d"], case["abs_d"], case["default_group"], case.get("annotation"))
 
 
@@ -661,17 +783,58 @@ def synth_dataset(seed, d, shifts=None):
     return ds, truth
 
 
+def split_dataset(seed):
+    """a read cluster that AlignmentCollector.split_coverage_regions cuts into sub-regions, with a gene overlapping only one
+    of them: gene gA (+) spans > 32768 bp (exons at ~1 kb, ~20 kb and a last exon at ~50 kb), gene gB (-) starts with that
+    last exon; ONE read follows the long isoform of gA (coverage-1 valley between 22 kb and 50 kb), more reads its short
+    isoform and gB.  The sub-region left of the valley loads gA only, the right one gA and gB; the reads spanning the
+    valley are processed in both.  Every shared feature is also read through the right sub-region (all its genes loaded)."""
+    import random
+    from gen import synth
+    rng = random.Random(seed)
+    ds = synth.Dataset(seed)
+    truth = []
+    groups = ["gA", "gB", "gC"]
+    n = 0
+    for c in range(2):
+        chrom = "chr%d" % (c + 1)
+        ds.add_chrom(chrom, 80000)
+        o = rng.randint(0, 3000)
+        ln = lambda: rng.randint(120, 260)
+        e1 = (1001 + o, 1000 + o + ln())
+        e2 = (20001 + o + rng.randint(0, 500), 0)
+        e2 = (e2[0], e2[0] + ln())
+        e2b = (e2[1] + rng.randint(1500, 2500), 0)
+        e2b = (e2b[0], e2b[0] + ln())
+        e3 = (e2b[1] + rng.randint(27000, 30000), 0)
+        e3 = (e3[0], e3[0] + ln())
+        e4 = (e3[1] + rng.randint(1200, 2000), 0)
+        e4 = (e4[0], e4[0] + ln())
+        tA1, tA2, tB1 = [e1, e2, e3], [e1, e2, e2b], [e3, e4]
+        ga, gb = "gA%d" % c, "gB%d" % c
+        ds.add_gene(chrom, ga, "+", [(ga + ".t1", tA1), (ga + ".t2", tA2)], plant=False)
+        ds.add_gene(chrom, gb, "-", [(gb + ".t1", tB1)], plant=False)
+        for t, k in ((tA1, 1), (tA2, rng.randint(4, 7)), (tB1, rng.randint(3, 6))):     # one spanning read: the valley has coverage 1
+            for _ in range(k):
+                g = rng.choice(groups)
+                name = "r%d_%s" % (n, g)
+                n += 1
+                ds.read_from_exons(name, chrom, t, tags=[("RG", g)])
+                truth.append((name, chrom, t, g))
+    return ds, truth
+
+
 def parse_exon_str(s):
     return [tuple(int(x) for x in p.split("-")) for p in s.split(",") if p]
 
 
-def oracle_pipeline(seed, cfg_index, repo=None, keep=None):
+def oracle_pipeline(seed, cfg_index, repo=None, keep=None, split=False):
     """run the real pipeline with --count_exons and recount from BAM + GTF"""
     import pipeline as P
     import pysam
     margs, rg, explicit = PIPE_CONFIGS[cfg_index]
     d, abs_d = requested_delta(margs)
-    ds, truth = synth_dataset(seed, d, EXPLICIT_SHIFTS if explicit else None)
+    ds, truth = split_dataset(seed) if split else synth_dataset(seed, d, EXPLICIT_SHIFTS if explicit else None)
     root = P.scratch("isoverif_c13_pipe_")
     try:
         paths = ds.write(os.path.join(root, "data"))
@@ -760,9 +923,9 @@ def toy_rows_unique():
             seen = set()
             for r in rows:
                 n += 1
-                k = (r["chr"], r["start"], r["end"], r["strand"], r["group"])
+                k = (r["chr"], r["start"], r["end"], r["group"])
                 if k in seen:
-                    fails.append(("feature_row_split", "%s (toy data): two rows for %s" % (fn, k[:4])))
+                    fails.append(("feature_row_split", "%s (toy data): two rows for %s" % (fn, k[:3])))
                 seen.add(k)
         return fails, {"toy_rows": n}
     finally:
@@ -777,6 +940,30 @@ WITNESSES = [
 ]
 
 
+# finding G1 (audit): the split-region input as an in-process case: sub-region 1 loads gA only (the tA1 read is processed
+# there), sub-region 2 loads gA and gB; `split_label_witness` / `split_rows_orig_witness` of Props/C13Rows.lean
+_G1_A = [{"tid": "tA1", "strand": "+", "gene": "gA", "feats": [(1001, 1200), (20001, 20200), (50001, 50200)]},
+         {"tid": "tA2", "strand": "+", "gene": "gA", "feats": [(1001, 1200), (20001, 20200), (22001, 22200)]}]
+_G1_B = [{"tid": "tB1", "strand": "-", "gene": "gB", "feats": [(50001, 50200), (51801, 52000)]}]
+G1_CASE = {"chr": "chr1", "d": 6, "abs_d": 20, "default_group": "NA", "loads": [_G1_A, _G1_A + _G1_B], "annotation": _G1_A + _G1_B,
+           "split": True,
+           "reads": [{"gene": 0, "blocks": _G1_A[0]["feats"], "polya": -1, "polyt": -1, "group": "NA"}] +
+                    [{"gene": 0, "blocks": _G1_A[1]["feats"], "polya": -1, "polyt": -1, "group": "NA"} for _ in range(4)] +
+                    [{"gene": 1, "blocks": _G1_B[0]["feats"], "polya": -1, "polyt": -1, "group": "NA"} for _ in range(3)]}
+
+# known finding partial_load_label: the G1 annotation when the shared exon is counted ONLY through the sub-region that
+# loads gA alone (no read of gB): the row cannot name gB (`partial_label_witness`)
+PARTIAL_CASE = dict(G1_CASE, loads=[_G1_A], reads=[G1_CASE["reads"][0]])
+
+# class micro_feature_sweep_skip on the real wrappers (audit G2; `micro_exon_witness`, `micro_intron_witness`)
+MICRO_WITNESSES = [
+    {"name": "micro_exon_witness", "op": "exon_profile", "known": [(1100, 1200), (1302, 1304), (1366, 1466)], "gene_region": (1100, 1466),
+     "blocks": [(1100, 1197), (1299, 1301), (1368, 1466)], "d": 6, "expect_gene": [1, -1, 1]},
+    {"name": "micro_intron_witness", "op": "intron_profile", "known": [(201, 301), (304, 366)], "gene_region": (100, 467),
+     "blocks": [(100, 199), (305, 306), (369, 467)], "d": 6, "abs_d": 20, "expect_gene": [1, -1]},
+]
+
+
 def replay_witnesses(ctx):
     C, GI, LP, LC, IA = _impl()
     w = WITNESSES[0]
@@ -787,53 +974,87 @@ def replay_witnesses(ctx):
     c = LP.OverlappingFeaturesProfileConstructor(tl(w["known"]), (100, 400), comparator=partial(C.equal_ranges, delta=w["d"]), delta=w["d"])
     got = c.construct_exon_profile(tl(w["blocks"])).gene_profile
     ctx.extra["witness_replays"][w["name"]] = {"got": got, "as_proved": got == w["expect_gene"]}
+    for w in MICRO_WITNESSES:
+        kw = {"known": w["known"], "gene_region": w["gene_region"], "d": w["d"], "abs_d": w.get("abs_d", 20), "blocks": w["blocks"],
+              "polya": -1, "polyt": -1}
+        got = guarded(impl_profile, w["op"], kw)
+        got = got.get("gene") if isinstance(got, dict) else got
+        kinds = sorted({k for k, _ in oracle_profile(w["op"], kw)})
+        ctx.extra["witness_replays"][w["name"]] = {"got": got, "as_proved": got == w["expect_gene"], "oracle_kinds": kinds}
     for k, v in ctx.extra["witness_replays"].items():
         if not v["as_proved"]:
             ctx.notes.append("witness %s no longer reproduces on the real code: %s" % (k, v["got"]))
+
+
+CLASS_KINDS = ("tie_loser_exon", "micro_feature_sweep_skip", "partial_load_label")
+CLASS_COUNTS = {}
+
+
+def _fail(ctx, kind, inp, detail):
+    """failures of the listed classes are numerous by construction of the generators: a few of each are kept as replayable
+    failures, all are counted (evidence: finding_class_counts), so that they do not crowd out other kinds"""
+    if kind in CLASS_KINDS:
+        CLASS_COUNTS[kind] = CLASS_COUNTS.get(kind, 0) + 1
+        if CLASS_COUNTS[kind] > 6:
+            return
+    ctx.fail(kind, inp, detail)
 
 
 def oracle(ctx, disagreements, broken):
     rng = ctx.rng
     quick = ctx.tier == "quick"
     n_cases = 0
+    # 0. the split-region input of finding G1 (and the partial-label corner that remains after its repair)
+    for wcase in (G1_CASE, PARTIAL_CASE):
+        for kind, detail in _safe_inprocess(wcase):
+            _fail(ctx, kind, {"level": "inprocess", "case": wcase}, detail)
     # 1. the disagreeing inputs first
     for dgr in disagreements:
+        if len(ctx.failures) > 40:
+            break
         inp = dgr["input"]
         if dgr["op"] == "pipeline_counts":
             case = inp["case"]
             for kind, detail in _safe_inprocess(case):
-                ctx.fail(kind, {"level": "inprocess", "case": case}, detail)
+                _fail(ctx, kind, {"level": "inprocess", "case": case}, detail)
         elif dgr["op"] == "count_dump":
             for kind, detail in oracle_history(inp):
-                ctx.fail(kind, {"level": "history", "case": inp}, detail)
+                _fail(ctx, kind, {"level": "history", "case": inp}, detail)
         elif dgr["op"] == "effective_delta":
             st, dv = inp["strategy"], inp["delta"]
             if dv is not None and dv >= 0 and not vlib.is_err(impl_effective_delta(st, dv)) and impl_effective_delta(st, dv) != dv:
-                ctx.fail("explicit_delta_ignored", {"level": "options", "strategy": st, "delta": dv},
+                _fail(ctx, "explicit_delta_ignored", {"level": "options", "strategy": st, "delta": dv},
                          "set_matching_options(matching_strategy=%s, delta=%d) leaves args.delta = %r" % (st, dv, impl_effective_delta(st, dv)))
         elif dgr["op"] in ("exon_profile", "intron_profile"):
             for kind, detail in oracle_profile(dgr["op"], inp):
-                ctx.fail(kind, {"level": "profile", "op": dgr["op"], "case": inp}, detail)
+                _fail(ctx, kind, {"level": "profile", "op": dgr["op"], "case": inp}, detail)
     # 2. normal generator, independent of the driver
     for i in range(250 if quick else 2500):
-        case = F.pipeline_case(rng, quick, micro=(i % 6 == 0))
+        case = F.pipeline_case(rng, quick, micro=(i % 6 == 0), split=(i % 3 == 1))
+        if case["split"]:
+            ctx.count("oracle_inprocess_split_case")
         n_cases += 1
         for kind, detail in _safe_inprocess(case):
-            ctx.fail(kind, {"level": "inprocess", "case": case}, detail)
+            _fail(ctx, kind, {"level": "inprocess", "case": case}, detail)
         if len(ctx.failures) > 60:
             break
     for i in range(200 if quick else 2000):
         h = dict(F.history_case(rng, quick), key="coord", ignore_groups=bool(i % 2))
         n_cases += 1
         for kind, detail in oracle_history(h):
-            ctx.fail(kind, {"level": "history", "case": h}, detail)
+            if len(ctx.failures) < 90:
+                _fail(ctx, kind, {"level": "history", "case": h}, detail)
     for op, kw in F.profile_cases(rng, True)[:: (7 if quick else 1)]:
         n_cases += 1
         for kind, detail in oracle_profile(op, kw):
-            ctx.fail(kind, {"level": "profile", "op": op, "case": kw}, detail)
+            _fail(ctx, kind, {"level": "profile", "op": op, "case": kw}, detail)
+    for i in range(60 if quick else 600):
+        n_cases += 1
+        for kind, inp, detail in oracle_merge_union(rng, F.genome_annotation(rng, micro=(i % 5 == 0)), rng.choice([0, 2, 6])):
+            _fail(ctx, kind, inp, detail)
     replay_witnesses(ctx)
     for kind, inp, detail in oracle_options():
-        ctx.fail(kind, inp, detail)
+        _fail(ctx, kind, inp, detail)
     # 3. the real pipeline
     runs = []
     cfgs = list(range(len(PIPE_CONFIGS)))
@@ -847,12 +1068,21 @@ def oracle(ctx, disagreements, broken):
             runs.append({"cfg": PIPE_CONFIGS[ci][0] + ([PIPE_CONFIGS[ci][1]] if PIPE_CONFIGS[ci][1] else []), "seed": seed,
                          "stats": stats, "failures": len(fails)})
             for kind, detail in fails:
-                ctx.fail(kind, {"level": "pipeline", "seed": seed, "cfg": ci}, detail)
+                _fail(ctx, kind, {"level": "pipeline", "seed": seed, "cfg": ci}, detail)
+    # read clusters cut into sub-regions, a gene overlapping only one of them (finding G1)
+    for ci, s_ in ((2, 0), (1, 1)) if quick else [(ci, s_) for ci in (0, 1, 2, 3, 5) for s_ in range(3)]:
+        seed = ctx.seed * 1000 + 500 + ci * 17 + s_
+        fails, stats = oracle_pipeline(seed, ci, split=True)
+        runs.append({"cfg": ["split-cluster"] + PIPE_CONFIGS[ci][0] + ([PIPE_CONFIGS[ci][1]] if PIPE_CONFIGS[ci][1] else []), "seed": seed,
+                     "stats": stats, "failures": len(fails)})
+        for kind, detail in fails:
+            _fail(ctx, kind, {"level": "pipeline", "seed": seed, "cfg": ci, "split": True}, detail)
     fails, stats = toy_rows_unique()
     runs.append({"cfg": "toy", "stats": stats, "failures": len(fails)})
     for kind, detail in fails:
-        ctx.fail(kind, {"level": "toy"}, detail)
+        _fail(ctx, kind, {"level": "toy"}, detail)
     ctx.extra["oracle_cases"] = n_cases
+    ctx.extra["finding_class_counts"] = dict(CLASS_COUNTS)
     ctx.extra["oracle_read_feature_pairs"] = dict(STATS)
     ctx.extra["pipeline_runs"] = runs
 
@@ -865,43 +1095,52 @@ def _safe_inprocess(case):
 
 
 def oracle_history(h):
-    """counter semantics on a raw history: one row per (coordinates, group); counts = number of (event, position)
-    pairs with value +1 / -1 at that feature; grouped rows sum to ungrouped"""
+    """counter semantics on a raw history: one row per (chr, start, end, group); counts = number of (event, position)
+    pairs with value +1 / -1 at that feature; the row's gene list = sorted union of the gene lists of the descriptions
+    counted for it, its strand = sorted union of their strand characters; grouped rows sum to ungrouped"""
     fails = []
     n = [len(h["pmaps"][ev["pmap"]]) for ev in h["events"]]
     if any(len(ev["profile"]) > m and any(v in (1, -1) for v in ev["profile"][m:]) for ev, m in zip(h["events"], n)):
         return []     # malformed: the code raises; nothing to recount
-    exp = {}
+    exp, lab = {}, {}
     for ev in h["events"]:
         g = h["default_group"] if h["ignore_groups"] else ev["group"]
         for v, f in zip(ev["profile"], h["pmaps"][ev["pmap"]]):
             if v in (1, -1):
-                e = exp.setdefault((f["chr"], f["start"], f["end"], f["strand"], g), [0, 0])
+                e = exp.setdefault((f["chr"], f["start"], f["end"], g), [0, 0])
                 e[0 if v == 1 else 1] += 1
+                l = lab.setdefault((f["chr"], f["start"], f["end"]), (set(), set()))
+                l[0].update(f["strand"])
+                l[1].update(f["genes"])
     rows = guarded(impl_count_dump, h)
     if vlib.is_err(rows) or isinstance(rows, dict):
         return [("crash", "counter raised on a well-formed history: %s" % rows)]
     got = {}
     for r in rows:
-        k = (r["chr"], r["start"], r["end"], r["strand"], r["group"])
+        k = (r["chr"], r["start"], r["end"], r["group"])
         if k in got:
             fails.append(("feature_row_split", "two rows for %s" % (k,)))
         e = got.setdefault(k, [0, 0])
         e[0] += r["incl"]
         e[1] += r["excl"]
-    if got != exp and not fails:
+        l = lab.get(k[:3])
+        if l is not None and not any(kk == "feature_row_split" for kk, _ in fails):
+            if r["strand"] != "".join(sorted(l[0])) or r["genes"] != sorted(l[1]):
+                fails.append(("row_identity", "row %s strand/genes %s/%s, the descriptions counted for it give %s/%s"
+                              % (k, r["strand"], r["genes"], "".join(sorted(l[0])), sorted(l[1]))))
+    if got != exp and not any(kk == "feature_row_split" for kk, _ in fails):
         bad = [k for k in set(got) | set(exp) if got.get(k) != exp.get(k)][:3]
         fails.append(("count_mismatch", "history recount differs at %s: got %s expected %s"
                       % (bad, [got.get(k) for k in bad], [exp.get(k) for k in bad])))
     elif got != exp:
-        tot_g, tot_e = {}, {}
         if sum(v[0] for v in got.values()) != sum(v[0] for v in exp.values()):
             fails.append(("count_mismatch", "history totals differ"))
     return fails
 
 
 def oracle_profile(op, kw):
-    """a single wrapper call against the recount of expected_values (exact domain) / soundness (outside)"""
+    """a single wrapper call against the statement (`expected_values`, all inputs); a deviation inside the class
+    `micro_feature_sweep_skip` is reported as that class"""
     if not kw["blocks"]:
         return []
     kind = "exon" if op == "exon_profile" else "intron"
@@ -914,10 +1153,11 @@ def oracle_profile(op, kw):
     for k, g, (vs, vl, exact, cands) in zip(K, r["gene"], vals):
         if g == 1 and not cands:
             fails.append(("include_unsound", "%s: %s marked present, no read feature within delta (%s)" % (op, k, kw)))
-        if exact and g in (1, -1, 0) and g != vs and g != vl:
-            fails.append(("count_mismatch", "%s: %s has %s, recount %s (%s)" % (op, k, g, vs, kw)))
-        if exact and g == -2 and (vs != 0):
-            fails.append(("count_mismatch", "%s: %s masked, recount %s (%s)" % (op, k, vs, kw)))
+            continue
+        dev = (g in (1, -1, 0) and g != vs and g != vl) or (g == -2 and vs != 0)
+        if dev:
+            fails.append(("count_mismatch" if exact else "micro_feature_sweep_skip",
+                          "%s: %s has %s, the statement gives %s (%s)" % (op, k, g, vs, kw)))
     return fails
 
 
@@ -931,8 +1171,12 @@ def replay(ctx, failure):
     if lvl == "profile":
         return any(k == failure["kind"] for k, _ in oracle_profile(inp["op"], inp["case"]))
     if lvl == "pipeline":
-        fails, _ = oracle_pipeline(inp["seed"], inp["cfg"])
+        fails, _ = oracle_pipeline(inp["seed"], inp["cfg"], split=inp.get("split", False))
         return any(k == failure["kind"] for k, _ in fails)
+    if lvl == "merge":
+        import random
+        return any(k == failure["kind"] for k, _, _ in oracle_merge_union(random.Random(1), inp["isos"], inp["d"])) or \
+            any(k == failure["kind"] for s_ in range(20) for k, _, _ in oracle_merge_union(random.Random(s_), inp["isos"], inp["d"]))
     if lvl == "options":
         return run_set_matching_options(inp["strategy"], inp["delta"]).delta != inp["delta"]
     if lvl == "toy":
@@ -942,4 +1186,7 @@ def replay(ctx, failure):
 
 
 def matches_finding(failure, entry):
+    """`tie_loser_exon`, `micro_feature_sweep_skip`, `partial_load_label`: the oracle names a failure by one of these kinds
+    only after checking the class predicate on the feature / read pair (`micro_class`, the lenient recount, the genes of
+    the gene infos through which the feature was counted); everything else keeps its own kind and stays unlisted"""
     return failure["kind"] == entry.get("kind")
